@@ -1,12 +1,21 @@
 #!/bin/sh
 # MANIFEST.setup_cmd — offline build of the framework from files on disk only.
-set -e
+# Every ./check rebuilds what it needs anyway; this only warms the caches, so a module that
+# does not build here is not fatal (its own check will report it).
 cd "$(dirname "$0")"
 export GOFLAGS=-mod=mod GOPROXY=off CGO_ENABLED=0
 mkdir -p bin evidence replays
 cp /repo/go.sum go/go.sum 2>/dev/null || true
-(cd go && go build -o ../bin/extract ./cmd/extract)
-./bin/extract -repo /repo -out lean/ScriggoV/Gen || true
-(cd lean && lake build && for d in Drivers/C*.lean; do lake build driver_$(basename $d .lean); done)
-(cd go && for p in props/c*; do go build -tags verif -o ../bin/harness_$(basename $p | tr c C) ./$p; done)
+python3 tools/assemble.py || exit 1
+(cd go && go build -o ../bin/extract ./cmd/extract) || echo "setup: extract does not build"
+./bin/extract -repo /repo -out lean/ScriggoV/Gen || echo "setup: some generators failed"
+(cd lean && lake build ScriggoV.Basic.Bytes)
+for f in lean/ScriggoV/Props/C*.lean; do
+  p=$(basename "$f" .lean)
+  (cd lean && lake build ScriggoV.Props.$p >/dev/null 2>&1 && lake build driver_$p >/dev/null 2>&1) || echo "setup: $p does not build"
+done
+for d in go/props/c*; do
+  p=$(basename "$d" | tr c C)
+  (cd go && go build -tags verif -o ../bin/harness_$p ./props/$(basename "$d")) >/dev/null 2>&1 || echo "setup: harness $p does not build"
+done
 echo setup done
